@@ -926,6 +926,7 @@ class Note:
             new_note.type = base_note.type
             new_note.val = base_note.val
             new_note.octave = base_note.octave
+            new_note.mode, new_note.accident = base_note.mode, base_note.accident  # parsed in the chord's own scale
             return new_note
         else:
             return self.add_tags(self.tags)
